@@ -11,7 +11,7 @@ Regenerated on every run from the tree named by VERIF_REPO:
 * a structural skeleton read from the *ast* of the file: the ordered (function, kind, field) list of
   the `_copy_*` methods (kind = alias | copy), the ordered statement list of validate(), the list of
   in-place list mutation sites (`x[:] = ...`, `.remove`, `.append`, ... on something reachable from
-  `other`/`values`) per function, and the set of attributes assigned in __init__;
+  `other`/`values`) per function, every re-binding `other.X = <new object>` outside the copy phase, and the set of attributes assigned in __init__;
 * the cipher-suite attribute table (id -> cipher, mac, key exchange, version window) derived from the
   CipherSuite lists of constants.py, used by the `compatible` predicate.
 
@@ -109,6 +109,20 @@ class SettingsUnit(object):
                 d = self.mutation_site(node)
                 if d:
                     muts.append((fn, d))
+        # attributes of `other` that are re-bound to a NEW object outside the copy phase
+        rebinds = []
+        for fn in CHECK_FUNS:
+            if fn in COPY_FUNS:
+                continue
+            for node in ast.walk(funs[fn]):
+                if isinstance(node, ast.Assign):
+                    for t in node.targets:
+                        if isinstance(t, ast.Attribute) and isinstance(t.value, ast.Name) and t.value.id == 'other':
+                            v = node.value
+                            if fn == 'validate' and isinstance(v, ast.Attribute) and isinstance(v.value, ast.Name) \
+                                    and v.value.id == 'self':
+                                continue    # alias of the copy phase, already in gen_validate_seq
+                            rebinds.append((fn, '%s:%s' % (t.attr, type(v).__name__)))
         inits = []
         for fn in ('_init_key_settings', '_init_misc_extensions', '__init__'):
             for node in ast.walk(funs[fn]):
@@ -125,7 +139,7 @@ class SettingsUnit(object):
                                                  and isinstance(s.value.value, str))]
             dump = ast.dump(ast.Module(body=body, type_ignores=[]), annotate_fields=False)
             digests.append((fn, hashlib.sha256(dump.encode()).hexdigest()[:16]))
-        return copies, vseq, muts, inits, digests
+        return copies, vseq, muts, inits, digests, rebinds
 
     @staticmethod
     def copy_stmt(st, fn):
@@ -233,7 +247,7 @@ class SettingsUnit(object):
         cm = import_repo('tlslite.utils.cryptomath')
         cf = import_repo('tlslite.utils.cipherfactory')
         compat = import_repo('tlslite.utils.compat')
-        copies, vseq, muts, inits, digests = self.skeleton()
+        copies, vseq, muts, inits, digests, rebinds = self.skeleton()
         out = ['(* GENERATED by translator/units_settings.py from %s -- do not edit *)' % 'tlslite/handshakesettings.py',
                'From Coq Require Import ZArith List Bool String.',
                'Import ListNotations.', 'Open Scope Z_scope.', 'Open Scope string_scope.', '']
@@ -292,6 +306,8 @@ class SettingsUnit(object):
         out.append('Definition gen_validate_seq : list string := [\n  %s].' % ';\n  '.join(sl(x) for x in vseq))
         out.append('Definition gen_mutation_sites : list (string * string) := [\n  %s].'
                    % ';\n  '.join('(%s, %s)' % (sl(a), sl(b)) for a, b in muts))
+        out.append('Definition gen_rebinds : list (string * string) := [\n  %s].'
+                   % ';\n  '.join('(%s, %s)' % (sl(a), sl(b)) for a, b in rebinds))
         out.append('Definition gen_init_attrs : list string := %s.' % strlist(inits))
         out.append('Definition gen_digests : list (string * string) := [\n  %s].'
                    % ';\n  '.join('(%s, %s)' % (sl(a), sl(b)) for a, b in digests))
